@@ -94,9 +94,12 @@ func runC18(c *Ctx) {
 	roots := evaluationEntryPoints(c)
 	r.Analysed["evaluation_entry_points"] = len(roots)
 	type gfind struct {
-		e     *mutEffect
-		roots []string
+		e      *mutEffect
+		roots  []string
+		single string
 	}
+	singletons := singletonTypes(c, m)
+	r.Analysed["process_wide_singleton_types"] = fmt.Sprint(keysOf(singletons))
 	byKey := map[string]*gfind{}
 	for _, root := range roots {
 		s := m.sums[root]
@@ -121,6 +124,51 @@ func runC18(c *Ctx) {
 			}
 			g.roots = append(g.roots, funcKey(root))
 		}
+		// container updates (map entries, slice elements) inside objects held by a package-level variable
+		for _, pe := range s.puts {
+			if pe.Base.o.kind != kGlobal || pe.Site == nil {
+				continue
+			}
+			if pe.Base.o.g.Pkg == nil || !c.P.isModulePath(pe.Base.o.g.Pkg.Pkg.Path()) {
+				continue
+			}
+			siteFn := pe.Site.Parent()
+			if m.onceFuncs[siteFn] {
+				continue
+			}
+			n++
+			k := fmt.Sprintf("%s/%s.[]", pe.Base.o.g.Name(), funcKey(siteFn))
+			g := byKey[k]
+			if g == nil {
+				g = &gfind{e: &mutEffect{Base: pe.Base, Site: pe.Site, SiteFn: siteFn, Field: "[]"}}
+				byKey[k] = g
+			}
+			g.roots = append(g.roots, funcKey(root))
+		}
+		// methods of the process-wide singletons (objects built under sync.Once and kept in a
+		// package-level variable: the expression parser, its lexer and postfixer): their receiver
+		// IS shared state, so a write through it is a write through that variable
+		if recv := root.Signature.Recv(); recv != nil && singletons[namedTypeName(recv.Type())] {
+			record := func(base ref, site ssa.Instruction, field string) {
+				if base.o.kind != kParam || base.o.idx != 0 || site == nil {
+					return
+				}
+				n++
+				k := fmt.Sprintf("singleton %s/%s.%s", namedTypeName(recv.Type()), funcKey(site.Parent()), field)
+				g := byKey[k]
+				if g == nil {
+					g = &gfind{e: &mutEffect{Base: base, Site: site, SiteFn: site.Parent(), Field: field}, single: namedTypeName(recv.Type())}
+					byKey[k] = g
+				}
+				g.roots = append(g.roots, funcKey(root))
+			}
+			for _, e := range s.muts {
+				record(e.Base, e.Site, e.Field)
+			}
+			for _, pe := range s.puts {
+				record(pe.Base, pe.Site, "[]")
+			}
+		}
 		if n == 0 {
 			r.Discharge("G1", "entry "+funcKey(root), c.P.pos(root.Pos()), "no store to a package-level variable (or through one) is reachable")
 		}
@@ -136,6 +184,10 @@ func runC18(c *Ctx) {
 		rs := uniq(g.roots)
 		if len(rs) > 6 {
 			rs = append(rs[:6], fmt.Sprintf("… %d more", len(rs)-6))
+		}
+		if g.single != "" {
+			r.FindingPath("G1", k, c.P.pos(g.e.Site.Pos()), fmt.Sprintf("the process-wide %s (built once, kept in a package-level variable and shared by every evaluator) is written while it is used (reachable from %s): parsing one expression depends on earlier ones and concurrent evaluators race on it", g.single, strings.Join(rs, ", ")), g.e.Chain)
+			continue
 		}
 		r.FindingPath("G1", k, c.P.pos(g.e.Site.Pos()), fmt.Sprintf("package-level variable %s is written during evaluation (reachable from %s): results can depend on earlier evaluations and concurrent evaluations race on it", g.e.Base.o.g.Name(), strings.Join(rs, ", ")), g.e.Chain)
 	}
@@ -355,4 +407,39 @@ func mapIterationLocalList(call *ssa.Call) bool {
 
 var g4Accepted = map[string]string{
 	"yqlib.parseUnixTime/time.Now": "the clock value is returned only together with a non-nil error and the callers discard it",
+}
+
+// singletonTypes: named struct types of the module allocated (directly or in a
+// constructor called, two levels deep) by a function that runs under
+// sync.Once: the objects the process keeps one instance of.
+func singletonTypes(c *Ctx, m *mutfx) map[string]bool {
+	out := map[string]bool{}
+	var scan func(fn *ssa.Function, d int)
+	seen := map[*ssa.Function]bool{}
+	scan = func(fn *ssa.Function, d int) {
+		if fn == nil || fn.Blocks == nil || seen[fn] || d > 3 {
+			return
+		}
+		seen[fn] = true
+		eachInstr(fn, func(ins ssa.Instruction) {
+			switch x := ins.(type) {
+			case *ssa.Alloc:
+				if n := structNameOfPtr(x.Type()); n != "" && c.P.isModulePath(funcPkgPath(fn)) {
+					if nt, ok := x.Type().Underlying().(*types.Pointer); ok {
+						if named, ok := nt.Elem().(*types.Named); ok && named.Obj().Pkg() != nil && c.P.isModulePath(named.Obj().Pkg().Path()) {
+							out[n] = true
+						}
+					}
+				}
+			case *ssa.Call:
+				if callee := x.Call.StaticCallee(); callee != nil && c.P.isModulePath(funcPkgPath(callee)) {
+					scan(callee, d+1)
+				}
+			}
+		})
+	}
+	for fn := range m.onceFuncs {
+		scan(fn, 0)
+	}
+	return out
 }
